@@ -162,6 +162,7 @@ type harness struct {
 	d         driver
 	observer  bool // a third API user: Get + IsDefined on the same object while the run is in flight
 	contender bool // a second caller: RunContext(ctxB) on the same object, ctxB cancelled at an arbitrary instant
+	prior     bool // run; Set; cancellable run; run (instead of cancellable run; Set; run)
 }
 
 func errClass(err error) string {
@@ -227,16 +228,31 @@ func (h harness) Start(s *vsched.Sched) vsched.World {
 			}
 		})
 	}
-	ctx, cancel := context.WithCancel(context.Background())
+	// cancelled WITH a cause: the call must still return the context's error (ctx.Err()), not the cause
+	ctx, cancelCause := context.WithCancelCause(context.Background())
+	cancel := func() { cancelCause(errors.New("application-level cause")) }
 	s.Spawn("caller", func() {
+		if h.prior {
+			// a completed run and a Set come first: the cancellable run and the run after it build on them
+			if e := c.RunContext(context.Background()); e != nil && w.d.wantOut != "" {
+				w.problems = append(w.problems, "the preliminary run failed: "+e.Error())
+			}
+			for k, v := range w.d.reset {
+				if e := c.Set(k, v); e != nil {
+					w.problems = append(w.problems, "Set before the cancellable run failed: "+e.Error())
+				}
+			}
+		}
 		err := c.RunContext(ctx)
 		// the very moment RunContext returns (no scheduling point in between)
 		w.err1 = errClass(err)
 		w.phase = 1
 		w.atReturn("first RunContext")
-		for k, v := range w.d.reset {
-			if e := c.Set(k, v); e != nil {
-				w.problems = append(w.problems, "Set after the run failed: "+e.Error())
+		if !h.prior {
+			for k, v := range w.d.reset {
+				if e := c.Set(k, v); e != nil {
+					w.problems = append(w.problems, "Set after the run failed: "+e.Error())
+				}
 			}
 		}
 		w.phase = 2
@@ -428,6 +444,7 @@ func (w *world) observerLegal() bool {
 
 type Case struct {
 	Contender bool            `json:"contender,omitempty"`
+	Prior     bool            `json:"prior_run,omitempty"`
 	Observer  bool            `json:"observer,omitempty"`
 	Driver    string          `json:"driver"`
 	Kind      string          `json:"kind"`
@@ -472,7 +489,7 @@ func main() {
 				}
 				for rep := 0; rep < 2; rep++ {
 					s := vsched.NewSched()
-					w := harness{d: d, observer: c.Observer, contender: c.Contender}.Start(s)
+					w := harness{d: d, observer: c.Observer, contender: c.Contender, prior: c.Prior}.Start(s)
 					ok := true
 					for _, a := range c.Schedule {
 						en := false
@@ -545,6 +562,37 @@ func main() {
 				r.Violation("driver="+d.name+"/"+sigOf(v.Kind, v.Msg), v.Msg, Case{Observer: observer, Driver: d.name, Kind: v.Kind, Msg: v.Msg, Schedule: v.Schedule, Trace: tail(v.Trace, 40)})
 			}
 			r.Sample(map[string]interface{}{"driver": d.name, "script": d.src, "threads": "caller(RunContext; Set; RunContext; Get) | vm goroutine(s) | canceller", "outcomes": res.Outcomes})
+		}
+	}
+	// a completed run and a Set BEFORE the cancellable run (what a cancelled run leaves behind must not fall back to
+	// an earlier state)
+	for _, d := range drivers {
+		if d.infinite || d.wantOut == "" {
+			continue
+		}
+		res := vsched.Explore(harness{d: d, prior: true}, vsched.Options{MaxStates: r.Pick(300000, 3000000)})
+		tengo.VerifNewVM = nil
+		states += int64(res.States)
+		trans += int64(res.Transitions)
+		execs += int64(res.Executions)
+		terms += int64(res.Terminals)
+		branching += int64(res.Branching)
+		for o := range res.Outcomes {
+			r.Outcome(d.name + "+prior-run: " + o)
+			outcomes.Add(d.name + "+prior-run: " + o)
+		}
+		r.Set("driver/"+d.name+"/prior-run", map[string]interface{}{"script": d.src, "states": res.States, "transitions": res.Transitions,
+			"executions": res.Executions, "terminal_states": res.Terminals, "outcomes": res.Outcomes})
+		if vsched.Hung {
+			r.NotExhaustive("a thread never reached another scheduling point (reported as a violation); exploration stopped")
+		} else if res.Capped {
+			r.NotExhaustive(fmt.Sprintf("driver %s with a prior run: state cap reached after %d states", d.name, res.States))
+		}
+		for _, m := range res.Internal {
+			r.Internal("driver %s+prior-run: %s", d.name, m)
+		}
+		for _, v := range res.Violations {
+			r.Violation("driver="+d.name+"+prior-run/"+sigOf(v.Kind, v.Msg), v.Msg, Case{Prior: true, Driver: d.name, Kind: v.Kind, Msg: v.Msg, Schedule: v.Schedule, Trace: tail(v.Trace, 40)})
 		}
 	}
 	// a second caller contending for the same object (its context cancelled at any instant, also while it waits)
